@@ -9,7 +9,7 @@ import tcpcl_util as tu
 
 MODULE = 'DtnVerif.Props.C17'
 
-STATES = ['pre_contact', 'in_contact', 'established', 'mid_rx', 'mid_tx', 'await_ack', 'two_tx', 'terminating', 'term_queued']
+STATES = ['pre_contact', 'in_contact', 'established', 'mid_rx', 'mid_tx', 'await_ack', 'two_tx', 'terminating', 'term_queued', 'queued_second']
 
 
 class Adversary(object):
@@ -27,6 +27,7 @@ class Adversary(object):
         self.injected = []
         self.cum = {}
         self.peer_keepalive = 0
+        self.peer_flags = rng.choice([0, 0, 1, 1, 3, 0x81])     # CAN_TLS and reserved bits offered by the peer: X has TLS disabled
 
     def feed(self, data, cut=None):
         if self.x.closed():
@@ -68,7 +69,7 @@ class Adversary(object):
         for m in fr[self.seen:]:
             k = m['k']
             if k == 'contact' and not self.passive:
-                self.send({'k': 'contact', 'flags': 0})
+                self.send({'k': 'contact', 'flags': self.peer_flags})
             elif k == 'sess_init' and not self.passive:
                 self.send({'k': 'sess_init', 'keepalive': self.peer_keepalive, 'seg_mru': 2 ** 64 - 1, 'xfer_mru': 2 ** 64 - 1, 'node': b'dtn://peer/'.hex(), 'ext': ''})
             elif k == 'xfer_segment' and ack:
@@ -93,7 +94,7 @@ class Adversary(object):
             self.drain()
             return True
         if self.passive:
-            self.send({'k': 'contact', 'flags': 0})
+            self.send({'k': 'contact', 'flags': self.peer_flags})
         self.coop()
         if state == 'in_contact':
             return True
@@ -133,6 +134,14 @@ class Adversary(object):
         if state == 'terminating':
             sim.terminate(x, 0)
             self.drain()
+            self.seen = len(self.frames())
+            return True
+        if state == 'queued_second':
+            # transfer 1 in the middle of its segments, transfer 2 queued behind it and not started
+            sim.send(x, bytes(range(30)))
+            sim.pq(x)
+            sim.send(x, bytes(range(100, 125)))
+            self.own = [bytes(range(30)), bytes(range(100, 125))]
             self.seen = len(self.frames())
             return True
         if state == 'term_queued':
@@ -177,6 +186,9 @@ RAW_CASES = [
     ('bad_version5', b'dtn!\x05\x00'),
     ('unknown_type', bytes([0x7f, 1, 2, 3])),
     ('unknown_type0', bytes([0x00])),
+    ('bad_magic_then_good', b'dtn?\x04\x00' + b'dtn!\x04\x00'),
+    ('bad_version_then_good', b'dtn!\x03\x00\x00\x00\x00' + b'dtn!\x04\x00'),
+    ('bad_version5_then_good_and_init', b'dtn!\x05\x00' + b'dtn!\x04\x00' + bytes([7, 0, 0]) + (2 ** 64 - 1).to_bytes(8, 'big') * 2 + bytes([0, 0, 0, 0, 0, 0])),
 ]
 
 
@@ -206,7 +218,7 @@ def run_case(chk, rng, passive, state, seq, cuts):
                 adv.blame.append((o['escaped'], 'precontact' if state == 'pre_contact' else name))
     # afterwards behave: acknowledge everything X sent, let it finish
     own = getattr(adv, 'own', [])
-    if not x.closed() and state in ('mid_tx', 'await_ack', 'two_tx', 'term_queued'):
+    if not x.closed() and state in ('mid_tx', 'await_ack', 'two_tx', 'term_queued', 'queued_second'):
         for m in getattr(adv, 'unacked', []):
             pass
         adv.seen = 0
@@ -298,8 +310,26 @@ def judge(chk, adv, mark, wire_before, own, label, seqnames, state):
                     bad.append(('C17:delivered-data-mismatched', 'transfer %d delivered with %d octets differing from what was sent for it' % (t, len(have))))
     # own transfers unaffected (unless the peer legitimately refused them or terminated the session)
     refused = any(n in ('refuse_own', 'ack_own_end_early', 'sess_term', 'sess_term_reply', 'sess_init_again') for n in seqnames)
-    if state == 'two_tx' and any(n in ('refuse_second', 'ack_second_end') for n in seqnames):
+    if state in ('two_tx', 'queued_second') and any(n in ('refuse_second', 'ack_second_end') for n in seqnames):
         refused = True          # transfer 2 exists there: the peer may refuse it / acknowledge it early
+    if 'refuse_second' in seqnames and state in ('two_tx', 'queued_second', 'term_queued') and not any(
+            n in ('sess_term', 'sess_term_reply', 'sess_init_again') for n in seqnames):
+        # a refused transfer is over: nothing of it may be written after the refusal was processed
+        fed_at = None
+        for i2, (who2, ev2, _o2) in enumerate(sim.log):
+            if who2 == x.name and ev2.get('e') == 'rx' and ev2.get('data', '').startswith('03'):
+                fed_at = i2
+                break
+        if fed_at is not None:
+            late = b''.join(bytes.fromhex(o2['wire']) for (who2, _e2, o2) in sim.log[fed_at + 1:] if who2 == x.name)
+            before = b''.join(bytes.fromhex(o2['wire']) for (who2, _e2, o2) in sim.log[:fed_at + 1] if who2 == x.name)
+            try:
+                nb = len(tu.rfc_frames(before)[0])
+                allf = [m for (m, _e) in tu.rfc_frames(before + late)[0]]
+                if state == 'queued_second' and any(m['k'] == 'xfer_segment' and m['tid'] == 2 for m in allf[nb:]):
+                    bad.append(('C17:refused-transfer-sent-anyway', 'transfer 2 was refused while still queued and its segments were written afterwards'))
+            except ValueError:
+                pass
     if state in ('pre_contact', 'in_contact'):
         # before the session exists none of these is legitimate: they are rejected and change nothing
         # (a SESS_INIT in the sequence establishes the session: what follows it can be legitimate)
